@@ -29,6 +29,9 @@ type CallCtx struct {
 	Deferred bool
 	ResType  types.Type
 	Site     string
+	// Alts, when set by a model, forks the path: one successor per
+	// alternative, each returning its own result.
+	Alts []func(s *State) Value
 }
 
 // CallMode is the treatment of a call.
@@ -59,6 +62,14 @@ type Exec struct {
 	InlineDepth int
 	Safety      bool // generate implicit safety obligations (nil deref, bounds, type assert)
 
+	// FuncLabel overrides the function name used in obligation names.
+	FuncLabel func(fn *ssa.Function) string
+	// OnInstr is called before every instruction.
+	OnInstr func(s *State, f *Frame, in ssa.Instruction)
+	// OnLoopBack is called when a path reaches a loop header over a back edge.
+	OnLoopBack func(s *State, f *Frame, lp *Loop)
+	// OnInit is called on the initial state of a verified function.
+	OnInit func(s *State, f *Frame)
 	Goexit    bool // opaque panicking calls may also end the goroutine via runtime.Goexit
 	ModelMods map[string][]string
 	iters     map[string]*iterInfo
@@ -350,16 +361,6 @@ func (x *Exec) initialState(fn *ssa.Function, spec *FuncSpec) *State {
 		}
 		c := x.newCell("fv."+fv.Name(), pt.Elem())
 		x.regCell(c)
-		if _, isStruct := pt.Elem().Underlying().(*types.Struct); isStruct {
-			// captured struct variable: model as heap object
-			ref := x.Ctx.Fresh("fv."+fv.Name(), SInt)
-			s.Assume(Gt(ref, IntLit(0)))
-			spv := &PtrVal{Ref: ref, Base: pt.Elem(), Typ: pt.Elem()}
-			f.Free = append(f.Free, spv)
-			f.Vars[fv.Name()] = spv
-			f.VarAddr[fv.Name()] = true
-			continue
-		}
 		init := s.freshValue("fv0."+fv.Name(), pt.Elem())
 		s.Cells[c] = init
 		s.OldCells[c] = init
@@ -369,6 +370,9 @@ func (x *Exec) initialState(fn *ssa.Function, spec *FuncSpec) *State {
 		f.VarAddr[fv.Name()] = true
 	}
 	s.Frames = []*Frame{f}
+	if x.OnInit != nil {
+		x.OnInit(s, f)
+	}
 	x.initGhost(s, f, spec)
 	env := s.NewEnv(f)
 	if spec != nil {
@@ -454,6 +458,9 @@ func (x *Exec) execUntilFork(s *State) []*State {
 		instr := f.Block.Instrs[f.Idx]
 		if debugOn {
 			fmt.Fprintf(os.Stderr, "[%p d=%d] %s.%d.%d: %s   panic=%v\n", s, len(s.Frames), f.Fn.Name(), f.Block.Index, f.Idx, instr, s.Panic != nil)
+		}
+		if x.OnInstr != nil {
+			x.OnInstr(s, f, instr)
 		}
 		forks := x.step(s, f, instr)
 		if forks != nil {
@@ -848,6 +855,11 @@ func (x *Exec) safety(s *State, f *Frame, in ssa.Instruction, kind string, cond 
 }
 
 func (x *Exec) funcName(fn *ssa.Function) string {
+	if x.FuncLabel != nil {
+		if l := x.FuncLabel(fn); l != "" {
+			return l
+		}
+	}
 	if fn.Pkg != nil {
 		return fn.RelString(fn.Pkg.Pkg)
 	}
